@@ -9,6 +9,7 @@ AST
            | ('label', ident)
            | ('call', macro_ident, [arg trees])
            | ('rep', count_tree, iterator_name, macro_ident, [arg trees])
+           | ('pad', alignment_tree) | ('wflip', address_tree, value_tree, return_tree|None)
   ident    = ('id', canonical, spelling)   canonical: the global dotted name, or the bare name of a
              parameter / @-local / iterator; spelling: how it is written in the source (relative dots)
   trees are R5 trees whose identifier leaves are idents; ('id', '$', '$') is the next address.
@@ -59,6 +60,10 @@ def render_stmt(st):
     if k == 'rep':
         args = ', '.join(_arg(a) for a in st[4])
         return f'rep({render_tree(st[1])}, {st[2]}) {st[3][2]} {args}'.rstrip()
+    if k == 'pad':
+        return f'pad {render_tree(st[1])}'
+    if k == 'wflip':
+        return f'wflip {_arg(st[1])}, {_arg(st[2])}' + (f', {_arg(st[3])}' if st[3] is not None else '')
     raise ValueError(k)
 
 
@@ -171,6 +176,10 @@ def inline(program, max_depth=40):
             elif k == 'call':
                 args = [subst(a, env) for a in st[2]]
                 do_call(st[1][1], args, path + (('call', len(out), st[1][1]),), depth)
+            elif k == 'pad':
+                out.append(('pad', subst(st[1], env)))
+            elif k == 'wflip':
+                out.append(('wflip', subst(st[1], env), subst(st[2], env), subst(st[3], env) if st[3] is not None else None))
             elif k == 'rep':
                 n = closed_value(subst(st[1], env))
                 it = st[2]
@@ -216,6 +225,10 @@ def render_primitive(stmts):
     for st in stmts:
         if st[0] == 'label':
             lines.append(flat_name(st[1][1]) + ':')
+        elif st[0] == 'pad':
+            lines.append('    pad ' + R5.render(fix(st[1])))
+        elif st[0] == 'wflip':
+            lines.append('    wflip ' + ', '.join('(' + R5.render(fix(x)) + ')' for x in st[1:] if x is not None))
         else:
             f = R5.render(fix(st[1])) if st[1] is not None else ''
             j = R5.render(fix(st[2])) if st[2] is not None else ''
